@@ -1,4 +1,24 @@
 package instrument
 
-// DefaultPatches are the seam patches described in DESIGN.md 3.3.
-var DefaultPatches = []Patch{}
+// DefaultPatches are the seam patches described in DESIGN.md 3.3.  Each must
+// apply exactly once to the current working tree or the check exits 2.
+var DefaultPatches = []Patch{
+	{
+		File:    "core/stat/usage.go",
+		Old:     "func init() {\n\tgo func() {",
+		New:     "func init() {\n\tif verifNoRefresher {\n\t\treturn\n\t}\n\tgo func() {",
+		Comment: "do not start the real-clock CPU sampler; the workload sets the CPU signal",
+	},
+	{
+		File:    "core/stores/cache/cleaner.go",
+		Old:     "func init() {\n\ttw, err := collection.NewTimingWheel(",
+		New:     "func init() {\n\tif verifSkipInit {\n\t\treturn\n\t}\n\ttw, err := collection.NewTimingWheel(",
+		Comment: "the cleaner's wheel and task runner are built inside the bubble by VerifResetCleaner",
+	},
+	{
+		File:    "core/stores/redis/redisclientmanager.go",
+		Old:     "MinIdleConns: idleConns,",
+		New:     "MinIdleConns: 0 * idleConns,",
+		Comment: "go-redis pre-dials idle connections inside NewClient, before go-zero attaches the dial hook; a real dial must never happen inside a bubble",
+	},
+}
